@@ -69,19 +69,19 @@ def exp_secure(part):
     return ['ok', ref_secure_filename(fn)]
 
 
-def exp_text(part, content):
+def exp_text(part, content, default_charset=None):
     ct = part.get('ctype')
     base = ct[0] if ct else 'text/plain'
     if base != 'text/plain':
         return ['ok', None]
-    charset = (ct[1] if ct else None) or 'utf-8'
+    charset = (ct[1] if ct else None) or default_charset or 'utf-8'
     try:
         return ['ok', content.decode(charset)]
     except (ValueError, LookupError):
         return ['err', 'MultipartParseError']
 
 
-def exp_obs(pattern, part, content):
+def exp_obs(pattern, part, content, default_charset=None):
     k = pattern[0]
     if k == 'skip':
         return None
@@ -95,7 +95,7 @@ def exp_obs(pattern, part, content):
     if k == 'data2':
         return [content, True]
     if k == 'text':
-        return exp_text(part, content)
+        return exp_text(part, content, default_charset)
     if k == 'media':
         return list(G.json_value(content))
     if k == 'read_until':
@@ -106,6 +106,21 @@ def exp_obs(pattern, part, content):
         return content if i < 0 else content[:i + 1]
     if k == 'read_then_data':
         return [content[:pattern[1]], content[pattern[1]:]]
+    if k == 'ru_then_read':
+        i = content.find(pattern[1])
+        i = len(content) if i < 0 else i
+        return [content[:i], content[i:]]
+    if k == 'lines':
+        out = []
+        pos = 0
+        while pos < len(content):
+            i = content.find(b'\n', pos)
+            end = len(content) if i < 0 else i + 1
+            out.append(content[pos:end])
+            pos = end
+        return out
+    if k == 'exhaust':
+        return None
     raise AssertionError(pattern)
 
 
@@ -115,11 +130,11 @@ def effective_pattern(pattern, part):
     return pattern
 
 
-def exp_record(part, pattern):
+def exp_record(part, pattern, default_charset=None):
     content = G.part_content(part)
     return {'name': part['name'], 'filename': part.get('filename'),
             'content_type': G.part_ctype_value(part) or 'text/plain',
-            'secure': exp_secure(part), 'obs': exp_obs(pattern, part, content)}
+            'secure': exp_secure(part), 'obs': exp_obs(pattern, part, content, default_charset)}
 
 
 def is_partial(pattern, part):
@@ -213,6 +228,20 @@ def consume_sync(part, pattern, mode):
     if k == 'read_then_data':
         a = s.read(pattern[1])
         return [a, part.get_data()]
+    if k == 'ru_then_read':
+        a = s.read_until(pattern[1])
+        return [a, s.read()]
+    if k == 'lines':
+        out = []
+        while True:
+            ln = s.readline()
+            if not ln:
+                return out
+            out.append(ln)
+            if len(out) > 100000:
+                raise Violation('endless_stream', 'part.stream.readline() keeps returning data')
+    if k == 'exhaust':
+        return s.exhaust()
     raise AssertionError(pattern)
 
 
@@ -270,6 +299,21 @@ async def consume_async(part, pattern, mode):
     if k == 'read_then_data':
         a = await s.read(pattern[1])
         return [a, await part.get_data()]
+    if k == 'ru_then_read':
+        a = await s.read_until(pattern[1])
+        return [a, await s.read()]
+    if k == 'lines':
+        out = []
+        while True:
+            ln = await s.read_until(b'\n')
+            ln += await s.read(1)
+            if not ln:
+                return out
+            out.append(ln)
+            if len(out) > 100000:
+                raise Violation('endless_stream', 'part.stream.read_until() keeps returning data')
+    if k == 'exhaust':
+        return await s.exhaust()
     raise AssertionError(pattern)
 
 
@@ -475,7 +519,7 @@ def _ctx(ct, body, tr):
 # ------------------------------------------------------------------ valid forms
 
 
-def check_valid_outcome(name, out, form, patterns, ct, body, tr):
+def check_valid_outcome(name, out, form, patterns, ct, body, tr, default_charset=None):
     if out['error'] is not None:
         raise Violation('valid_form_rejected', '[%s] %s (%r) after %d of %d parts; %s'
                         % (name, out['error'], out.get('description'), len(out['parts']), len(form['parts']),
@@ -484,7 +528,7 @@ def check_valid_outcome(name, out, form, patterns, ct, body, tr):
         raise Violation('part_count', '[%s] parsed %d parts, encoded %d; got %r; %s'
                         % (name, len(out['parts']), len(form['parts']), _short(repr(out['parts'])), _ctx(ct, body, tr)))
     for i, (got, part, pat) in enumerate(zip(out['parts'], form['parts'], patterns)):
-        exp = exp_record(part, pat)
+        exp = exp_record(part, pat, default_charset)
         for key in ('name', 'filename', 'content_type', 'secure'):
             if got[key] != exp[key]:
                 raise Violation('part_' + key, '[%s] part %d: %s = %r, encoded %r (headers %r); %s'
@@ -584,10 +628,13 @@ def run_valid(case, transports):
     ct = G.content_type_header(form)
     patterns = [effective_pattern(p, part) for p, part in zip(case['patterns'], form['parts'])]
     plan = {'mode': 'patterns', 'patterns': patterns}
+    dc = case.get('default_charset')
+    limits = {'default_charset': dc} if dc else None
     for name, fn in transports:
-        out = guarded(name, fn, ct, body, tr, plan)
-        check_valid_outcome(name, out, form, patterns, ct, body, tr)
-    return valid_labels(form, patterns, body, layout, tr)
+        out = guarded(name, fn, ct, body, tr, plan, limits)
+        check_valid_outcome(name, out, form, patterns, ct, body, tr, dc)
+    info = valid_labels(form, patterns, body, layout, tr)
+    return Info(info.nontrivial, info.labels + (('default_charset:' + dc,) if dc else ()))
 
 
 def _confirm(run, budget_of):
@@ -619,7 +666,7 @@ class Valid(Suite):
     get_media, read_until, readline, pipe, iteration).  Every parse must yield exactly the encoded parts."""
 
     name = 'valid'
-    budget = {'quick': 4000, 'thorough': 120000}
+    budget = {'quick': 10000, 'thorough': 150000}
     case_timeout = 20
 
     def strategy(self, tier):
@@ -637,7 +684,7 @@ class ValidBig(Suite):
     64-16384 bytes, WSGI short reads."""
 
     name = 'valid_big'
-    budget = {'quick': 640, 'thorough': 12000}
+    budget = {'quick': 1600, 'thorough': 20000}
     case_timeout = 20
 
     def strategy(self, tier):
@@ -755,7 +802,7 @@ class Limits(Suite):
     RequestOptions.media_handlers; WSGI and ASGI requests.  Accepted at the threshold, MultipartParseError one past."""
 
     name = 'limits'
-    budget = {'quick': 2400, 'thorough': 60000}
+    budget = {'quick': 6000, 'thorough': 80000}
     case_timeout = 20
 
     def strategy(self, tier):
@@ -873,7 +920,7 @@ class Corrupt(Suite):
     create no delimiter give exactly the predicted form; truncation before the close delimiter is rejected."""
 
     name = 'corrupt'
-    budget = {'quick': 4800, 'thorough': 150000}
+    budget = {'quick': 12000, 'thorough': 200000}
     case_timeout = 20
 
     def strategy(self, tier):
@@ -887,7 +934,7 @@ class Corrupt(Suite):
 
 class CorruptEnum(Suite):
     """Exhaustive: every position of the fixed small bodies (<= 120 bytes) x replace / insert with each byte of a
-    hostile alphabet, delete, truncate (quick: 3 forms x 5 bytes; thorough: 6 forms x 19 bytes)."""
+    hostile alphabet, delete, truncate (quick: 4 forms x 8 bytes; thorough: 6 forms x 19 bytes)."""
 
     name = 'corrupt_enum'
     exhaustive = True
@@ -903,7 +950,50 @@ class CorruptEnum(Suite):
     confirm_hang = staticmethod(_confirm(run_corrupt, _budget_small))
 
 
-SUITES = [Valid(), ValidBig(), ValidSweep(), Limits(), Corrupt(), CorruptEnum()]
+def run_header_param(case):
+    boundary = case['boundary']
+    form = {'boundary': boundary, 'quote_boundary': False, 'preamble': None, 'tail': b'',
+            'parts': [G._p('a', b'x\r\n--' + boundary.encode('ascii')[:-1])]}
+    body, _ = G.encode(form)
+    ct = case['content_type']
+    tr = {'short': [0], 'events': [7], 'preload': False, 'asgi_cl': True}
+    plan = {'mode': 'patterns', 'patterns': [['read_all']]}
+    outs = []
+    for name, fn in REQUEST_TRANSPORTS:
+        out = guarded(name, fn, ct, body, tr, plan)
+        outs.append(out)
+        if case['expect'] == 'ok':
+            check_valid_outcome(name, out, form, plan['patterns'], ct, body, tr)
+        elif out['error'] is None:
+            raise Violation('invalid_boundary_accepted', '[%s] Content-Type %r was accepted: parts %s'
+                            % (name, ct, _short(repr(out['parts']))))
+    if (outs[0]['error'], outs[0]['parts']) != (outs[1]['error'], outs[1]['parts']):
+        raise Violation('wsgi_asgi_disagree', 'Content-Type %r: wsgi %s vs asgi %s'
+                        % (ct, _short(repr(outs[0])), _short(repr(outs[1]))))
+    return Info(True, ('expect:' + case['expect'], 'error:%s' % outs[0]['error']))
+
+
+class HeaderParam(Suite):
+    """Exhaustive list of Content-Type header variants around the boundary parameter (missing, empty, 70 / 71 / 200
+    characters, quoted, upper-case parameter name, trailing white space that RFC 2046 says must be deleted, extra
+    parameters): valid ones parse the fixed form, invalid ones raise a 4xx HTTPError, WSGI and ASGI agree."""
+
+    name = 'header_param'
+    exhaustive = True
+    max_shards = 1
+    budget = {'quick': 1, 'thorough': 1}
+    case_timeout = 20
+
+    def cases(self, tier):
+        return G.header_param_cases(tier)
+
+    def run(self, case):
+        return run_header_param(case)
+
+    confirm_hang = staticmethod(_confirm(run_header_param, lambda c: 2_000_000))
+
+
+SUITES = [Valid(), ValidBig(), ValidSweep(), Limits(), Corrupt(), CorruptEnum(), HeaderParam()]
 
 
 def _known_f13(suite_name, case, violation):
